@@ -51,6 +51,9 @@ def draw_sim_cfg(rng, est=600, stall_ok=False, line_ok=True):
         line = line_ok and rng.random() < 0.7
         cfg["line_q"] = 1.0 if line else 0.0
         cfg["est"] = int(est * (8 if line else 1) * rng.choice([0.3, 1.0, 2.0]))
+        # calibrated placement: measure the length of this very workload under a non-pre-emptive
+        # schedule first, then draw the pre-emption / priority-change points uniformly over it
+        cfg["calibrate"] = rng.random() < 0.3
     else:
         cfg["line_q"] = rng.choice([0.0, 0.0, 0.03, 0.15, 0.5]) if line_ok else 0.0
     cfg["line"] = cfg["line_q"] > 0
@@ -127,6 +130,13 @@ def worker_main(prop, tier, vseed, start, count, stride, wall_s):
         rng = random.Random(seed)
         spec = mod.gen(rng, tier)
         spec["_idx"] = idx
+        if spec["sim"].pop("calibrate", False):
+            probe = json.loads(json.dumps(spec))
+            probe["sim"].update({"strategy": "pb", "d": 0, "stall_p": 0})
+            r0 = execute(mod, probe)
+            if r0.harness_error is None and r0.sim.step > 10:
+                spec["sim"]["est"] = r0.sim.step
+                st["probes"]["calibrated-placement-runs"] = st["probes"].get("calibrated-placement-runs", 0) + 1
         r = execute(mod, spec)
         sim = r.sim
         st["runs"] += 1
